@@ -2,7 +2,8 @@
 holds ONE 2-component nodal vector in a 2-D domain, shape (1, 2*nnodes) or (2*nnodes, 1): nvectors == 1, so the 2-D array
 itself is sliced with [0::2] and cannot be broadcast into vec_pad[0::3] -> ValueError, although (1, nnodes), (1, 3*nnodes)
 and (2, 2*nnodes) are written fine.  Exits 1 while the defect is present."""
-import os, shutil, sys, tempfile
+import base64, os, shutil, struct, sys, tempfile
+import xml.etree.ElementTree as ET
 import numpy as np
 import pymoto as pym
 d = pym.DomainDefinition(2, 2)          # nel 4, nnodes 9
@@ -11,8 +12,15 @@ ok = True
 try:
     for shape in [(1, 2 * d.nnodes), (2 * d.nnodes, 1)]:
         try:
-            d.write_to_vti({"u": np.arange(2.0 * d.nnodes).reshape(shape)}, os.path.join(tmp, "o.vti"))
-            print(shape, "written")
+            u = np.arange(2.0 * d.nnodes) + 0.5
+            d.write_to_vti({"u": u.reshape(shape)}, os.path.join(tmp, "o.vti"))
+            da = ET.parse(os.path.join(tmp, "o.vti")).getroot().find("ImageData/Piece/PointData/DataArray")
+            vals = np.frombuffer(base64.b64decode(da.text.strip()[12:]), dtype="<f4")
+            want = np.zeros(3 * d.nnodes, dtype=np.float32)
+            want[0::3], want[1::3] = u[0::2], u[1::2]
+            good = da.attrib["Name"] == "u" and da.attrib["NumberOfComponents"] == "3" and np.array_equal(vals, want)
+            print(shape, "written", "and decodes to (u, v, 0)" if good else "but does NOT decode to (u, v, 0)")
+            ok &= bool(good)
         except Exception as e:  # noqa
             print(shape, type(e).__name__, str(e)[:90])
             ok = False
